@@ -30,6 +30,9 @@ StepOf(nm) ==
       [] nm = "**" -> NDesc
       [] nm = "(a.b)" -> NBlock(<<NPath(<<NName(ka), NName(kb)>>, FALSE)>>)
       [] nm = "(a)" -> NBlock(<<NPath(<<NName(ka)>>, FALSE)>>)
+      \* a keep-array marker inside parentheses belongs to the inner path only
+      [] nm = "(a.b[])" -> NBlock(<<NPath(<<NName(ka), NName(kb)>>, TRUE)>>)
+      [] nm = "(a[])" -> NBlock(<<NPath(<<NName(ka)>>, TRUE)>>)
       [] nm = "[a]" -> NArray(<<NPath(<<NName(ka)>>, FALSE)>>)
       [] nm = "[$]" -> NArray(<<NVar("")>>)
       [] nm = "{k:a}" -> NObject(<< <<NStr(kx), NPath(<<NName(ka)>>, FALSE)>> >>)
